@@ -1986,6 +1986,8 @@ def _type(it, a, k):
         return BUILTINS["float"]
     if isinstance(v, (ExtRef, ClassRef)):
         return BUILTINS["type"]
+    if isinstance(v, AbsVal) and getattr(v, "is_array", False):
+        return Builtin("ndarray", lambda it_, a_, k_: a_[0])  # the class of an array value (only its name is ever inspected)
     return Unknown(f"type({type(v).__name__})")
 
 
